@@ -46,28 +46,77 @@ def _group_uses(node, var):
 def T9(m, R):
     ro = m.roles
     F = get_folder(m)
-    # ---- colour regexes
+    # ---- colour regexes (patterns and the prefix map may be literals in the function or class-level constants; two of the
+    # three forms may share one loop over (pattern, builder) pairs)
     f = m.fn('%s._parse_rgb_string' % ro.POINT)
-    comp = None
-    for n in f.walk():
-        if isinstance(n, ast.Assign) and isinstance(n.value, ast.Dict) and isinstance(n.targets[0], ast.Name):
-            comp = (n.targets[0].id, n.value, n)
-    if comp is None:
-        raise AnalysisError('anchor vanished: component dictionary in _parse_rgb_string')
-    cd = {}
-    for k, v in zip(comp[1].keys, comp[1].values):
-        try:
-            ref = F.fold(v)
-        except Unfoldable:
-            ref = None
-        cd[const_val(k)] = ref.name if isinstance(ref, EnumRef) else None
+    P = m.cls(ro.POINT)
+    class_consts = {n: v for n, v, _ in P.assigns}
+
+    def resolve(e, env):
+        """follow locals, loop substitutions and class-level constants down to a literal node"""
+        for _ in range(6):
+            if isinstance(e, ast.Name) and e.id in env:
+                e = env[e.id]
+            elif isinstance(e, ast.Attribute) and isinstance(e.value, ast.Name) and e.value.id in ('__class__', 'cls', 'self', ro.POINT) and e.attr in class_consts:
+                e = class_consts[e.attr]
+            elif isinstance(e, ast.Call) and norm(e.func) == 're.compile' and e.args:
+                e = e.args[0]
+            else:
+                break
+        return e
+    local_env = {}
+    for n in f.body:
+        if isinstance(n, ast.Assign) and isinstance(n.targets[0], ast.Name) and not (isinstance(n.value, ast.Call) and 'search' in norm(n.value.func)):
+            local_env[n.targets[0].id] = n.value
+    # blocks: (anchor stmt, match var, pattern text, if-block, substitution env)
+    blocks = []
+
+    def scan(stmts, env):
+        for i, st in enumerate(stmts):
+            if isinstance(st, ast.For) and isinstance(st.target, ast.Tuple) and isinstance(st.iter, (ast.Tuple, ast.List)) and \
+                    all(isinstance(x, (ast.Tuple, ast.List)) and len(x.elts) == len(st.target.elts) for x in st.iter.elts):
+                for pair in st.iter.elts:
+                    env2 = dict(env)
+                    for t_, v_ in zip(st.target.elts, pair.elts):
+                        env2[norm(t_)] = v_
+                    scan(st.body, env2)
+            elif isinstance(st, ast.Assign) and isinstance(st.targets[0], ast.Name) and isinstance(st.value, ast.Call):
+                c = st.value
+                pat = subj = None
+                if norm(c.func) in ('re.search', 're.match', 're.fullmatch') and len(c.args) >= 2:
+                    pat, subj = resolve(c.args[0], env), c.args[1]
+                elif isinstance(c.func, ast.Attribute) and c.func.attr in ('search', 'match', 'fullmatch') and len(c.args) == 1:
+                    pat, subj = resolve(c.func.value, env), c.args[0]
+                if pat is not None and isinstance(const_val(pat, None), str):
+                    blk = stmts[i + 1] if i + 1 < len(stmts) and isinstance(stmts[i + 1], ast.If) and is_name(stmts[i + 1].test, st.targets[0].id) else None
+                    blocks.append((st, st.targets[0].id, const_val(pat), blk, env))
+    scan(f.body, local_env)
+    # the prefix -> component map: the receiver of `.get(match.group(1), default)`
+    getc = next((n for n in f.walk() if isinstance(n, ast.Call) and call_name(n) == 'get' and n.args and 'group(1)' in norm(n.args[0])), None)
+    cd = None
+    comp_anchor = f.node
+    if getc is not None:
+        dnode = resolve(getc.func.value, local_env)
+        if isinstance(dnode, ast.Dict):
+            comp_anchor = dnode
+            cd = {}
+            for k, v in zip(dnode.keys, dnode.values):
+                try:
+                    ref = F.fold(v)
+                except Unfoldable:
+                    ref = None
+                cd[const_val(k)] = ref.name if isinstance(ref, EnumRef) else None
     want_cd = {'fg_': 'FOREGROUND', 'bg_': 'BACKGROUND', 'ul_': 'UNDERLINE', 'dul_': 'DOUBLE_UNDERLINE'}
-    R.check(cd == want_cd, f, comp[2], 'prefix -> component map is fg_/bg_/ul_/dul_ -> FOREGROUND/BACKGROUND/UNDERLINE/DOUBLE_UNDERLINE',
-            'prefix -> component map is %s' % cd, construct='component_dict')
-    pats = _pattern_assigns(f)
-    if len(pats) < 3:
-        raise AnalysisError('anchor vanished: the three colour regexes (%d found)' % len(pats))
-    for st, var, pat, subj in pats:
+    if cd is None:
+        R.undecided(f, f.node, 'the prefix -> component map of the colour strings was not found', construct='component_dict')
+        cd = want_cd
+    else:
+        R.check(cd == want_cd, f, comp_anchor, 'prefix -> component map is fg_/bg_/ul_/dul_ -> FOREGROUND/BACKGROUND/UNDERLINE/DOUBLE_UNDERLINE',
+                'prefix -> component map is %s' % cd, construct='component_dict')
+    if len(blocks) < 3:
+        R.undecided(f, f.node, '%d colour patterns recognised, expected three (rgb with three values, rgb with one, color256)' % len(blocks), construct='colour regex')
+    compname = norm(getc.func.value) if getc is not None else 'component_dict'
+    for st, var, pat, blk, env in blocks:
         try:
             roles, order = regexast.groups(pat)
         except Exception as e:
@@ -75,7 +124,6 @@ def T9(m, R):
             continue
         kind = 'rgb3' if pat.count(',') >= 2 and 'rgb' in pat else 'rgb1' if 'rgb' in pat else 'color256'
         cons = 'colour regex ' + kind
-        blk = _block_after(f, st)
         problems = []
         alt = roles.get(1)
         if not alt or alt[0] != 'ALT' or sorted(a.lstrip('?') for a in alt[1]) != sorted(cd) or not any(a.startswith('?') or a == '' for a in alt[1]):
@@ -111,13 +159,12 @@ def T9(m, R):
                     problems.append('%s does not read a (0x)?(digits) pair as int(digits, 16 if 0x else 10)' % short(n))
             if [p for _, p in got] != pairs and not problems:
                 problems.append('values are read from pairs %s, expected %s in order' % ([p for _, p in got], pairs))
-            # call: AnsiFormat.rgb(r, g, b, comp) / rgb(rgb, component=) / color256(rgb, component=)
             rets = [n for n in ast.walk(blk) if isinstance(n, ast.Return) and isinstance(n.value, ast.Call)]
             if not rets:
                 problems.append('block returns nothing')
             else:
                 c = rets[0].value
-                target = norm(c.func)
+                target = norm(resolve(c.func, env))
                 wt = 'AnsiFormat.rgb' if kind != 'color256' else 'AnsiFormat.color256'
                 if target not in (wt, wt.replace('AnsiFormat', '_AnsiControlFn'), wt.replace('color', 'colour')):
                     problems.append('builds with %s, expected %s' % (target, wt))
@@ -126,7 +173,7 @@ def T9(m, R):
                 if pos[:len(names)] != names:
                     problems.append('passes (%s), expected the parsed values (%s) in order' % (', '.join(pos), ', '.join(names)))
                 comp_arg = c.args[len(names)] if len(c.args) > len(names) else next((k.value for k in c.keywords if k.arg == 'component'), None)
-                wc = '%s.get(%s.group(1), ColorComponentType.FOREGROUND)' % (comp[0], var)
+                wc = '%s.get(%s.group(1), ColorComponentType.FOREGROUND)' % (compname, var)
                 if comp_arg is None or norm(comp_arg).replace('ColourComponentType', 'ColorComponentType') != wc:
                     problems.append('component is %s, expected %s' % (norm(comp_arg), wc))
         R.check(not problems, f, st, 'groups: prefix, then %d x (0x)?(hex digits); bases 16/10; values passed in order' % want_pairs,
